@@ -104,6 +104,8 @@ pub(crate) fn snapshot_day(
     pools: &HashMap<String, Section104Holding>,
     future_consumption: &HashMap<usize, Decimal>,
     same_day_reservations: &HashMap<(NaiveDate, String), Decimal>,
+    positions: &HashMap<String, Decimal>,
+    transactions: &[crate::models::GbpTransaction],
 ) {
     if !is_armed() {
         return;
@@ -122,11 +124,22 @@ pub(crate) fn snapshot_day(
             );
         }
     }
-    let mut future: Vec<(usize, String)> = future_consumption
+    let mut future: Vec<(usize, String, String, String)> = future_consumption
         .iter()
-        .map(|(idx, qty)| (*idx, qty.to_string()))
+        .map(|(idx, qty)| {
+            let (ticker, on) = transactions
+                .get(*idx)
+                .map(|tx| (tx.ticker.clone(), tx.date.to_string()))
+                .unwrap_or_default();
+            (*idx, qty.to_string(), ticker, on)
+        })
         .collect();
     future.sort();
+    let mut position_list: Vec<(String, String)> = positions
+        .iter()
+        .map(|(ticker, qty)| (ticker.clone(), qty.to_string()))
+        .collect();
+    position_list.sort();
     let mut reservations: Vec<(String, String, String)> = same_day_reservations
         .iter()
         .map(|((d, t), qty)| (d.to_string(), t.clone(), qty.to_string()))
@@ -138,6 +151,7 @@ pub(crate) fn snapshot_day(
         "pools": Value::Object(pools_out),
         "lots": lots_value(ledgers),
         "future_consumption": future,
+        "positions": position_list,
         "same_day_reservations": reservations,
     });
     RECORDER.with(|r| r.borrow_mut().snapshots.push(snapshot));
